@@ -6,7 +6,7 @@ out=seeded/RESULTS.md
 echo "# Seeded changes vs. checks (quick tier, VERIF_SEED=${VERIF_SEED:-1})"
 echo
 echo "Each change was written by an independent sub-agent from the property text alone, confirmed in a scratch worktree"
-echo "(suite passes, its demonstration fails with the change and passes without), applied to /repo, checked, and undone."
+echo "(suite passes, its demonstration fails with the change and passes without), applied to a scratch worktree of /repo, checked there (VERIF_REPO), and removed."
 echo
 echo "| seeded change | property | exit | violation classes reported |"
 echo "|---|---|---|---|"
@@ -14,15 +14,13 @@ for d in seeded/*/; do
   n=$(basename $d)
   [ -f $d/patch.diff ] || continue
   prop=$(python3 -c "import json;print(json.load(open('$d/meta.json'))['property'])")
-  cd /repo; git reset -q --hard HEAD
-  if ! git apply $OLDPWD/$d/patch.diff 2>/dev/null; then echo "| $n | $prop | patch does not apply | |"; cd /verif; continue; fi
-  cd /verif
-  o=$(VERIF_MINIMISE=2s timeout 1500 ./check $prop quick 2>&1); rc=$?
+  W=/tmp/sweep.$$; git -C /repo worktree remove --force $W >/dev/null 2>&1; git -C /repo worktree add -q --detach $W HEAD
+  if ! git -C $W apply /verif/$d/patch.diff 2>/dev/null; then echo "| $n | $prop | patch does not apply | |"; git -C /repo worktree remove --force $W; continue; fi
+  o=$(VERIF_REPO=$W VERIF_MINIMISE=2s timeout 1500 ./check $prop quick 2>&1); rc=$?
+  git -C /repo worktree remove --force $W >/dev/null 2>&1
   cls=$(echo "$o" | grep "^  class=" | sed 's/^  class=\([^ ]*\).*/\1/' | sort -u | tr '\n' ' ')
   echo "| $n | $prop | $rc | $cls |"
-  git -C /repo reset -q --hard HEAD
 done
 } > $out.tmp
 mv $out.tmp $out
-git -C /repo reset -q --hard HEAD
 cat $out
